@@ -67,6 +67,7 @@ type FunDecl struct {
 }
 
 type TB struct {
+	negSk map[int]*Term
 	tab   map[string]*Term
 	n     int
 	vars  map[string]*Term
@@ -1295,6 +1296,21 @@ func (tb *TB) InstAll(h *Term, points []*Term, apps map[string][]*Term, depth in
 	}
 	switch h.op {
 	case "forall":
+		if pol < 0 && !h.hasBound && depth > 0 {
+			// a closed universal in negative position is an existential: skolemise it (equisatisfiable; the
+			// constant is fresh, so a refutation with it is a refutation without it)
+			v, body := h.args[0], h.args[1]
+			key := h.id
+			sk, ok := tb.negSk[key]
+			if !ok {
+				sk = tb.Fresh(v.name+"!sk", v.sort)
+				if tb.negSk == nil {
+					tb.negSk = map[int]*Term{}
+				}
+				tb.negSk[key] = sk
+			}
+			return tb.InstAll(tb.Subst(body, v, sk), points, apps, depth-1, pol)
+		}
 		if pol <= 0 || depth <= 0 {
 			return h
 		}
